@@ -292,30 +292,81 @@ Lemma value_done sec k u acc r :
   match finish_entry u sec k acc with Some u' => prun (PBody sec) u' r | None => None end.
 Proof. rewrite pvalue_step. cbn [value_step]. destruct (finish_entry u sec k acc); reflexivity. Qed.
 
+Lemma value_done_cont sec k u ign acc r :
+  prun (PValue sec k VCont ign acc) u (cNL :: r) =
+  match finish_entry u sec k acc with Some u' => prun (PBody sec) u' r | None => None end.
+Proof.
+  rewrite pvalue_step. cbn [value_step]. change (is_comment_start cNL) with false. cbv iota. rewrite N.eqb_refl.
+  destruct (finish_entry u sec k acc); reflexivity.
+Qed.
+
+Lemma blank_cont_safe c : is_blank_c c = true -> cont_safe c = true.
+Proof. intros H. unfold cont_safe. solve_char. Qed.
+
+(* the tail of an entry whose last line ends in a backslash: backslash, spaces, newline, comment lines, blanks, newline *)
+Lemma trailing_continuation sec k u acc sp cl tb2 r : Spaces sp -> CommentLines cl -> Blanks tb2 ->
+  prun (PValue sec k VNormal O acc) u (cBS :: sp ++ cNL :: cl ++ tb2 ++ cNL :: r) =
+  match finish_entry u sec k (acc ++ [cSP] ++ tb2) with Some u' => prun (PBody sec) u' r | None => None end.
+Proof.
+  intros Hsp Hcl Htb. rewrite pvalue_step. cbn [value_step]. rewrite N.eqb_refl.
+  rewrite spaces_run by exact Hsp. rewrite pvalue_step. cbn [value_step]. change (cNL =? cSP) with false. cbv iota. rewrite N.eqb_refl. rewrite lcr.
+  rewrite comment_lines_run by exact Hcl.
+  destruct tb2 as [|c tb2].
+  - cbn [app]. rewrite value_done_cont. reflexivity.
+  - inversion Htb as [|? ? Hc Hb]; subst. cbn [app]. rewrite cont_like_normal by (apply blank_cont_safe; exact Hc).
+    change (c :: tb2 ++ cNL :: r) with ((c :: tb2) ++ cNL :: r). rewrite trailing_blanks by exact Htb. rewrite value_done.
+    rewrite <- !app_assoc. reflexivity.
+Qed.
+
 Lemma entry_line sec u k v line r : good_key k -> val_ok v -> EntryLine k v line ->
   prun (PBody sec) u (line ++ cNL :: r) = prun (PBody sec) (add_entry u sec k v) r.
 Proof.
-  intros Hk (Hacc & Hlead & Htrim) HL. destruct HL as [ind b1 b2 vt tb Hind Hb1 Hb2 Hvs Htb].
-  repeat (rewrite <- app_assoc || rewrite <- app_comm_cons).
-  rewrite (ls_linews (PBody sec) (PCommentBody sec) u ind _ (LSBody sec) Hind).
-  rewrite body_key by exact Hk. rewrite key_eq by exact Hb1. cbn [app].
-  rewrite aftereq_blanks by exact Hb2.
+  intros Hk (Hacc & Hlead & Htrim) HL.
   assert (Hfin : forall tb', Blanks tb' -> finish_entry u sec k (v ++ tb') = Some (add_entry u sec k v)).
   { intros tb' Hb'. unfold finish_entry, unit_add_raw. rewrite trim_end_blanks by assumption.
     destruct (unquote_value v); [reflexivity|congruence]. }
-  destruct v as [|c v'].
-  - (* empty value: everything up to the newline is blanks *)
-    inversion Hvs; subst. cbn [app]. rewrite aftereq_blanks by exact Htb.
-    rewrite prun_cons. cbn [pstep]. unfold value_start. cbn [value_step].
-    specialize (Hfin [] (Forall_nil _)). cbn [app] in Hfin. rewrite Hfin. reflexivity.
-  - destruct (vspell_head c v' vt Hvs) as (c' & t' & -> & Hc').
-    assert (Hnb : is_blank c' = false).
-    { destruct Hc' as [-> | ->]; [|reflexivity]. revert Hlead. clear. intros H. solve_char. }
-    cbn [app]. rewrite prun_cons. cbn [pstep]. rewrite Hnb.
-    change (match value_start sec k u c' with Some (st', u') => prun st' u' (t' ++ tb ++ cNL :: r) | None => None end)
-      with (prun (PValue sec k VNormal O []) u ((c' :: t') ++ tb ++ cNL :: r)).
-    rewrite (vspell_run false (c :: v') (c' :: t') Hvs). cbn [pre app].
-    rewrite trailing_blanks by exact Htb. rewrite value_done. rewrite Hfin by exact Htb. reflexivity.
+  destruct HL as [ind b1 b2 vt tb Hind Hb1 Hb2 Hvs Htb|ind b1 b2 vt tb sp cl tb2 Hind Hb1 Hb2 Hvs Htb Hsp Hcl Htb2].
+  - repeat (rewrite <- app_assoc || rewrite <- app_comm_cons).
+    rewrite (ls_linews (PBody sec) (PCommentBody sec) u ind _ (LSBody sec) Hind).
+    rewrite body_key by exact Hk. rewrite key_eq by exact Hb1. cbn [app].
+    rewrite aftereq_blanks by exact Hb2.
+    destruct v as [|c v'].
+    + (* empty value: everything up to the newline is blanks *)
+      inversion Hvs; subst. cbn [app]. rewrite aftereq_blanks by exact Htb.
+      rewrite prun_cons. cbn [pstep]. unfold value_start. cbn [value_step].
+      specialize (Hfin [] (Forall_nil _)). cbn [app] in Hfin. rewrite Hfin. reflexivity.
+    + destruct (vspell_head c v' vt Hvs) as (c' & t' & -> & Hc').
+      assert (Hnb : is_blank c' = false).
+      { destruct Hc' as [-> | ->]; [|reflexivity]. revert Hlead. clear. intros H. solve_char. }
+      cbn [app]. rewrite prun_cons. cbn [pstep]. rewrite Hnb.
+      change (match value_start sec k u c' with Some (st', u') => prun st' u' (t' ++ tb ++ cNL :: r) | None => None end)
+        with (prun (PValue sec k VNormal O []) u ((c' :: t') ++ tb ++ cNL :: r)).
+      rewrite (vspell_run false (c :: v') (c' :: t') Hvs). cbn [pre app].
+      rewrite trailing_blanks by exact Htb. rewrite value_done. rewrite Hfin by exact Htb. reflexivity.
+  - assert (Hb3 : Blanks (tb ++ [cSP] ++ tb2)).
+    { apply Forall_app. split; [exact Htb|]. apply Forall_app. split; [constructor; [reflexivity|constructor]|exact Htb2]. }
+    repeat (rewrite <- app_assoc || rewrite <- app_comm_cons).
+    rewrite (ls_linews (PBody sec) (PCommentBody sec) u ind _ (LSBody sec) Hind).
+    rewrite body_key by exact Hk. rewrite key_eq by exact Hb1. cbn [app].
+    rewrite aftereq_blanks by exact Hb2.
+    destruct v as [|c v'].
+    + inversion Hvs; subst. cbn [app]. rewrite aftereq_blanks by exact Htb.
+      rewrite prun_cons. cbn [pstep]. unfold value_start. cbn [value_step]. change (cBS =? cBS) with true. cbv iota.
+      change (is_blank cBS) with false. cbv iota.
+      change (prun (PValue sec k VBackslash 0 []) u (sp ++ cNL :: cl ++ tb2 ++ cNL :: r))
+        with (match value_step VNormal 0 [] cBS with Some (m', ign', acc') => prun (PValue sec k m' ign' acc') u (sp ++ cNL :: cl ++ tb2 ++ cNL :: r) | None => None end).
+      rewrite <- (pvalue_step sec k u VNormal 0 [] cBS). rewrite trailing_continuation by assumption.
+      cbn [app]. specialize (Hfin ([cSP] ++ tb2)). cbn [app] in Hfin. rewrite Hfin; [reflexivity|].
+      constructor; [reflexivity|exact Htb2].
+    + destruct (vspell_head c v' vt Hvs) as (c' & t' & -> & Hc').
+      assert (Hnb : is_blank c' = false).
+      { destruct Hc' as [-> | ->]; [|reflexivity]. revert Hlead. clear. intros H. solve_char. }
+      cbn [app]. rewrite prun_cons. cbn [pstep]. rewrite Hnb.
+      change (match value_start sec k u c' with Some (st', u') => prun st' u' (t' ++ tb ++ cBS :: sp ++ cNL :: cl ++ tb2 ++ cNL :: r) | None => None end)
+        with (prun (PValue sec k VNormal O []) u ((c' :: t') ++ tb ++ cBS :: sp ++ cNL :: cl ++ tb2 ++ cNL :: r)).
+      rewrite (vspell_run false (c :: v') (c' :: t') Hvs). cbn [pre app].
+      rewrite trailing_blanks by exact Htb. rewrite trailing_continuation by assumption.
+      rewrite <- !app_assoc. rewrite (Hfin (tb ++ [cSP] ++ tb2) Hb3). reflexivity.
 Qed.
 
 (* ---------- bodies, sections, files ---------- *)
